@@ -628,6 +628,8 @@ pub mod %(name)s {
                      lx.0.__state, lx.0.__initial_state, entry(r.rs), lx.0.match_loc(), lx.0.__done, lx.0.__verif_last_match_is_none(), logged);
             if !r.within { println!("NOTE: this input needs more than %(m)d lexemes in one call; it is outside the bound of the harness"); return; }
         }
+        #[cfg(not(kani))]
+        if !r.within { return; }                       // native sweep: inputs outside the bound m are skipped (counted by the caller as evaluated-and-skipped)
         // ---- vacuity guards
         #[cfg(kani)]
         {
@@ -866,10 +868,59 @@ def crate_main(defs, N, LOGM):
         else:
             out.append(harness_mod(d, N, m, unwind, sw))
     arms = "\n".join('        "%s" => %s::check(a, n, base, rs0, done0, true),' % (d["name"], d["name"]) for (d, _, _, _) in defs)
+    sweepable = [(d, m) for (d, m, _, _) in defs if d.get("form", "step") == "step" and not d.get("via")]
+    table = "\n".join('        ("%s", %s::check as CheckFn, %d),' % (d["name"], d["name"], len(d["sets"])) for (d, _) in sweepable)
     out.append("""
+type CheckFn = fn([char; N], usize, Loc, u8, bool, bool);
+const SWEEP: &[(&str, CheckFn, usize)] = &[
+%s
+];
+
+/// native sweep: every string over the given alphabet of length <= maxlen, every rule set, both values of the done flag, from a
+/// non-zero base location; the step contract (`check`) is the same function the Kani harness calls
+#[cfg(not(kani))]
+fn sweep(name: &str, maxlen: usize, alpha: &[char]) -> i32 {
+    let (_, f, nsets) = match SWEEP.iter().find(|e| e.0 == name) { Some(e) => *e, None => { println!("unknown definition"); return 2; } };
+    std::panic::set_hook(Box::new(|_| {}));
+    let base = Loc { line: 3, col: 5, byte_idx: 17 };
+    let mut cases: u64 = 0;
+    let maxlen = maxlen.min(N);
+    for n in 0..=maxlen {
+        let mut idx = vec![0usize; n];
+        loop {
+            let mut a = ['\\u{0}'; N];
+            for k in 0..n { a[k] = alpha[idx[k]]; }
+            for rs0 in 0..nsets {
+                for done0 in [false, true] {
+                    cases += 1;
+                    let r = std::panic::catch_unwind(|| f(a, n, base, rs0 as u8, done0, false));
+                    if let Err(e) = r {
+                        let msg = e.downcast_ref::<String>().cloned().or_else(|| e.downcast_ref::<&str>().map(|s| s.to_string())).unwrap_or_default();
+                        let codes: Vec<String> = a.iter().map(|c| (*c as u32).to_string()).collect();
+                        println!("SWEEP-FAIL {} n={} rs0={} done0={} base=3,5,17 chars={} msg={}", name, n, rs0, done0 as u8, codes.join(","), msg.replace('\\n', " "));
+                        return 3;
+                    }
+                }
+            }
+            // odometer
+            let mut k = 0;
+            while k < n { idx[k] += 1; if idx[k] < alpha.len() { break; } idx[k] = 0; k += 1; }
+            if k == n { break; }
+        }
+    }
+    println!("SWEEP-OK {} cases={}", name, cases);
+    0
+}
+
 /// native replay: <definition> <n> <rs0> <done0> <line> <col> <byte_idx> <c0 c1 ... as u32>
+/// native sweep : sweep <definition> <maxlen> <alphabet as u32 ...>
 fn main() {
     let args: Vec<String> = std::env::args().collect();
+    #[cfg(not(kani))]
+    if args.len() >= 5 && args[1] == "sweep" {
+        let alpha: Vec<char> = args[4..].iter().map(|v| char::from_u32(v.parse().unwrap()).unwrap_or('?')).collect();
+        std::process::exit(sweep(&args[2], args[3].parse().unwrap(), &alpha));
+    }
     if args.len() < 8 { return; }
     let n: usize = args[2].parse().unwrap(); let rs0: u8 = args[3].parse().unwrap(); let done0: bool = args[4] != "0";
     let base = Loc { line: args[5].parse().unwrap(), col: args[6].parse().unwrap(), byte_idx: args[7].parse().unwrap() };
@@ -881,5 +932,5 @@ fn main() {
     }
     println!("REPLAY-PASSED (no assertion of the step contract fails natively on this input)");
 }
-""" % arms)
+""" % (table, arms))
     return "\n".join(out)
